@@ -321,6 +321,20 @@ func checkC05(c *Ctx) {
 	}
 	compareModes(c, "interaction", ic, imeta, RunOpt{}, RunOpt{NoReg: true}, func(int) string { return "registers-observable" })
 
+	// 3c. loops left by a recovered panic (depth limit, refused allocation) or by a deadline: what the session sees afterwards
+	var pc [][]string
+	var pmeta []map[string]any
+	for _, boom := range []string{"rec(0)", "both(0)", "[rec(0)]"} { // (the refused allocation's message holds byte counts: not comparable)
+		for _, loop := range []string{"for i = 5 {if i == 3 {BOOM}}", "for i = 2:9 {for j = 3 {if i == 4 && j == 1 {BOOM}}}", "f = func() {for k = 4 {if k == 2 {BOOM}}}; f()", "i = 50; for i = 5 {if i == 3 {BOOM}}",
+			"g = func(n) {for k = n {if k == 1 {BOOM}}; n}; for i = 3 {g(i + 1)}", "for i = 5 {catch(1 / 0); if i == 3 {BOOM}}", "h = func(n) {n++; if n > 2 {BOOM}; n}; for i = 6 {h(i)}"} {
+			in := []string{"func rec(n) {rec(n + 1)}", "func both(n) {for q = 2 {both(n + 1)}}", strings.ReplaceAll(loop, "BOOM", boom), "println(catch(i), catch(j), catch(k), catch(q))", "for i = 2 {println(i)}; println(catch(i))", "for z = 1 {for y = 1 {for x = 1 {println(x, y, z)}}}"}
+			pc = append(pc, in)
+			pmeta = append(pmeta, map[string]any{"family": "loop-left-by-panic"})
+			c.Case(strings.Join(in, "\n"), true)
+		}
+	}
+	compareModes(c, "loop-left-by-panic", pc, pmeta, RunOpt{MaxDepth: 150}, RunOpt{NoReg: true, MaxDepth: 150}, func(int) string { return "registers-observable-after-recovered-panic" })
+
 	// 4. pinned reproducers of listed findings (always run)
 	pinned := []struct{ sig, src string }{
 		{"loop-variable-visibility-after-loop", "i = 100; for i = 3 {}; println(i)"},
